@@ -58,17 +58,16 @@ def handleFree (args impl : List String) : Option (String × String) :=
 /-! c05.pipe <kind> <cap> <parallel> <nsrc> <k>… | e <off> <k> <fins…> ; … maxok <b> end <inUse> <waiters> -/
 
 def kindOf (k : String) : Option Life.Kind :=
-  if k = "p" then some .pass else if k = "d" then some .discard else if k = "h" then some .hold
+  if k = "p" then some .pass else if k = "d" ∨ k = "q" then some .discard else if k = "h" then some .hold
   else if k = "x" then some .decErr else if k = "r" then some .refused else if k = "s" then some .split else none
 
 /-- the model's prediction: run every event's canonical script through Life.step? (capacity
     permitting one at a time) and print what the finalize trace point would have shown -/
-def predictPipe (cap : Nat) (kinds : List Life.Kind) : Option String := do
+def predictPipe (cap : Nat) (kinds : List Life.Kind) (letters : List String) : Option String := do
   let idx := List.range kinds.length
   let ops := (idx.zip kinds).flatMap (fun (i, k) => Life.script i k)
   let s ← TS.run Life.step? (Life.init cap kinds) ops
-  let evs := (idx.zip (s.evs.zip kinds)).map fun (i, e, k) =>
-    let kl := match k with | .pass => "p" | .discard => "d" | .hold => "h" | .decErr => "x" | .refused => "r" | .split => "s"
+  let evs := (idx.zip (s.evs.zip letters)).map fun (i, e, kl) =>
     Tok.unwords (["e", toString ((i + 1) * 10), kl] ++ e.fins.map toString ++ [";"])
   pure (Tok.unwords (evs ++ ["maxok", "1", "end", toString s.inUse, "0"]))
 
@@ -89,7 +88,17 @@ def handlePipe (args impl : List String) : Option (String × String) :=
   | _kind :: cap :: _par :: _nsrc :: ks => do
     let cap ← Tok.nat? cap
     let kinds ← ks.mapM kindOf
-    let m ← predictPipe cap kinds
+    let m ← predictPipe cap kinds ks
+    pure (m, if pipeVerdict impl then "ok" else "fail")
+  | _ => none
+
+/-- c05.chain <kind> <cap> <order> <k>… : same observation and oracle, two actions in the chain -/
+def handleChain (args impl : List String) : Option (String × String) :=
+  match args with
+  | _kind :: cap :: _order :: ks => do
+    let cap ← Tok.nat? cap
+    let kinds ← ks.mapM kindOf
+    let m ← predictPipe cap kinds ks
     pure (m, if pipeVerdict impl then "ok" else "fail")
   | _ => none
 
@@ -97,6 +106,7 @@ def handle (cmd : String) (args impl : List String) : Option (String × String) 
   if cmd = "c05.gated" then handleGated args impl
   else if cmd = "c05.free" then handleFree args impl
   else if cmd = "c05.pipe" then handlePipe args impl
+  else if cmd = "c05.chain" then handleChain args impl
   else none
 
 end FileD.DrvC05
